@@ -125,7 +125,16 @@ func (s *c14Side) decide(phase, typ, name string, index int) uint32 {
 	if v%100 >= s.density {
 		return 0
 	}
-	return 1 + (v/100)%12
+	return 1 + (v/100)%13
+}
+
+// c14LaterSibling: for a child in field X of a parent of type T, a later single-node field of the
+// same parent that a callback may assign directly (what an Apply nested in the callback, or any
+// other code that holds the parent, does): the traversal reads each field when it gets to it.
+var c14LaterSibling = map[string]string{
+	"IfStmt.Cond": "Body", "IfStmt.Init": "Cond", "ForStmt.Cond": "Body", "ForStmt.Init": "Post", "RangeStmt.X": "Body", "RangeStmt.Key": "X",
+	"SliceExpr.X": "High", "SliceExpr.Low": "Max", "BinaryExpr.X": "Y", "KeyValueExpr.Key": "Value", "FuncDecl.Name": "Body", "IndexExpr.X": "Index",
+	"TypeAssertExpr.X": "Type", "StarExpr.X": "", "LabeledStmt.Label": "Stmt", "SendStmt.Chan": "Value",
 }
 
 // on handles one callback. Returns the callback's result.
@@ -262,6 +271,12 @@ func (s *c14Side) on(phase string, node, parent interface{}, name string, index 
 	case 11:
 		if index < 0 && !isFile && s.step%11 == 0 {
 			do("Delete-non-list(panics)", func() { cur.delete() })
+		}
+	case 13:
+		if sib := c14LaterSibling[pv.Type().Name()+"."+name]; sib != "" && phase == "pre" {
+			if f := pv.FieldByName(sib); f.IsValid() && f.CanSet() && !f.IsNil() {
+				do("assign-later-sibling-field", func() { f.Set(s.build(f.Type())) })
+			}
 		}
 	case 12:
 		// astutil itself panics (slice bounds) when this pair is issued on the last element; the
